@@ -34,7 +34,7 @@ func genCase(t *rapid.T) Case {
 	floats := rapid.SampledFrom([]int{gen.SmallInt, gen.Finite, gen.Finite, gen.Decimalish | gen.SmallInt, gen.FullRange | gen.Denormal | gen.Zeros}).Draw(t, "floats")
 	g := gen.Tree(t, gen.TreeOpts{
 		Layouts: gen.Layouts4, Floats: floats, MaxDepth: 4, MaxParts: 4, MaxPts: 5,
-		Valid: true, FixEmptyCollections: true, FixedCollectionPct: 50, PEmpty: 25, LongPct: 1, LongMax: 200,
+		Valid: true, FixEmptyCollections: true, FixedCollectionPct: 50, PEmpty: 25, LongPct: 1, LongMax: 200, SRID: gen.SRIDs,
 	})
 	text, err := refwkt.Write(g, func(n int, label string) int { return rapid.IntRange(0, n-1).Draw(t, label) })
 	if err != nil {
@@ -151,6 +151,12 @@ func prop(c Case) error {
 	for _, o := range []string{"LINESTRING Z (1 2 3, 4 5 6, 7 8 9)", "MULTIPOLYGON (((0 0, 9 0, 9 9, 0 0)), EMPTY)", "POINT (7 7)"} {
 		if _, err := wkt.Unmarshal(o); err != nil {
 			return fmt.Errorf("wkt.Unmarshal(%q): %v", o, err)
+		}
+	}
+	// ... nor a sibling of the case itself (same structure and emptiness, other ordinates)
+	if st, err := refwkt.Write(g.Mapped(func(x float64) float64 { return 2*x + 1 }), nil); err == nil {
+		for i := 0; i < 2; i++ {
+			_, _ = wkt.Unmarshal(st)
 		}
 	}
 	bm2, err := model.FromGeom(back)
